@@ -408,6 +408,12 @@ func runSched(col *Collector, focus, tier string, seed int64) {
 				}
 			}
 			rng.Shuffle(len(deps[j]), func(a, b int) { deps[j][a], deps[j][b] = deps[j][b], deps[j][a] })
+			if len(deps[j]) > 0 && rng.Intn(5) == 0 {
+				// a dependency listed twice (at a random position): still that dependency, and the entries after
+				// the repetition are dependencies like any other
+				d, at := deps[j][rng.Intn(len(deps[j]))], rng.Intn(len(deps[j])+1)
+				deps[j] = append(append(append([]int{}, deps[j][:at]...), d), deps[j][at:]...)
+			}
 		}
 		return deps
 	}
